@@ -22,7 +22,7 @@ RULE = (
     "rational polygon alphabets (P in int / Fraction(den 1) / int-Fraction mixed / x/3+1/7 / halves, one slice of "
     "the lattice-triangle pairs, the ladder x*(q+1)/q for q in 7, 1001, 100003, 10000019 whose exact crossing "
     "denominators straddle 10^9) x {| & - ^ ~, depth-2 programs, JordanCurve.intersection, split at rational nodes, "
-    "integrals a+b<=6, move/scale by int and Fraction}: every stored coordinate, parameter and moment must be an "
+    "integrals a+b<=6, move/scale by int and Fraction}: every constructor vertex with denominators <= 10^9 (leaves with denominators 999999937, 999999999, 10^9 exactly, and 10^9+7 where rounding by <= 1e-17 is admitted) must be stored unchanged; every stored coordinate, parameter and moment must be an "
     "int or a Fraction with int numerator/denominator; crossing parameters equal the exact values; every result vertex "
     "is exactly an operand vertex or an exact crossing point when that point's denominators are <= 10^9, else within "
     "1e-9 of it; the same program list under Python 3.11 gives byte-identical dumps. "
@@ -64,6 +64,13 @@ def cases(tier, seed):
             specs.append({"id": "d2:%s:%s,%s,%s" % (v, x, y, z), "exprs": progs.d2_exprs(*e)})
     for v in ("int", "frac", "q7", "q100003"):
         specs.append({"id": "single:" + v, "single": [progs.L("P.%s#%s" % (n, v)) for n in names] + [["PC", "hollow", v if v in ("int", "frac") else "int"]]})
+    # coordinates whose denominators are exactly at, just below and just above the 10^9 limit
+    edge = [progs.L("P.%s#q%d" % (n, q)) for q in (999999937, 999999999, 10**9, 10**9 + 7) for n in ("triA", "sqB", "L")]
+    edge += [
+        ["V", [["123456789/1000000000", "1/1000000000"], ["999999999/1000000000", "3/1000000000"], ["1/2", "700000001/1000000000"]]],
+        ["V", [["-1/1000000000", "-1/999999999"], ["5/999999999", "-7/1000000000"], ["1/999999998", "9/1000000000"], ["-3/1000000000", "2/999999937"]]],
+    ]
+    specs.append({"id": "single:den1e9", "single": edge})
     specs.append({"id": "config:py311", "config": True})
     return specs
 
@@ -197,8 +204,22 @@ def judge_single(e, hist, viols, nontrivial):
 
     sid = al.expr_id(e)
     rep = {"id": "replay:" + sid, "single": [e]}
-    # split at rational nodes
+    # stored unchanged: every vertex of the input data whose denominators are <= 10^9 is a
+    # stored vertex, exactly
     S = al.lib_eval(e)
+    data = {sg[0] for c in al.model_eval(e).curves() for sg in c.segs}
+    have = {sg[0] for c in rg.interpret(S).curves() for sg in c.segs}
+    small = {w for w in data if w[0].denominator <= LIM and w[1].denominator <= LIM}
+    hist["stored<=1e9"] = hist.get("stored<=1e9", 0) + len(small)
+    hist["stored>1e9"] = hist.get("stored>1e9", 0) + len(data) - len(small)
+    if not small <= have:
+        w = sorted(small - have)[0]
+        viols.append({"case_id": sid + " :: stored", "what": "the vertex (%s, %s) given to the constructor (denominators <= 10^9) is not a stored vertex" % w, "replay": rep})
+    for w in data - small:
+        if not any(abs(h[0] - w[0]) <= F(1, 10**17) and abs(h[1] - w[1]) <= F(1, 10**17) for h in have):
+            viols.append({"case_id": sid + " :: stored-rounded", "what": "the vertex (%s, %s) is stored farther than 1e-17 away" % w, "replay": rep})
+            break
+    # split at rational nodes
     j = S.jordans[0]
     orig = rg.jordan_curve(j)
     nseg = len(j.segments)
@@ -242,11 +263,17 @@ def judge_single(e, hist, viols, nontrivial):
         nontrivial.append(sid + " " + tag)
     # integrals
     S = al.lib_eval(e)
+    wrong = []
     for a in range(7):
         for b in range(7 - a):
             m = lib.IntegrateShape.polynomial(S, a, b)
             if rg.typecode(m) not in ("i", "F") or rg.ex(m) != oc.ref_moment(S, a, b):
-                viols.append({"case_id": "%s :: moment(%d,%d)" % (sid, a, b), "what": "%r (%s), exact %s" % (m, rg.typecode(m), oc.ref_moment(S, a, b)), "replay": rep})
+                wrong.append((a, b, m))
+    if wrong:
+        # one finding per leaf: which moments are inexact, and the first of them
+        a, b, m = wrong[0]
+        ref = oc.ref_moment(S, a, b)
+        viols.append({"case_id": "%s :: moments" % sid, "what": "moments %s are not the exact values of the stored polygon; moment(%d,%d) is %s (%s), off by %.3g relative" % ([(x, y) for x, y, _ in wrong], a, b, str(m)[:60], rg.typecode(m), float(abs(rg.ex(m) - ref) / abs(ref)) if rg.typecode(m) in ("i", "F") and ref else float("nan")), "replay": rep})
     hist["single"] = hist.get("single", 0) + 1
 
 
@@ -325,7 +352,7 @@ def run_case(spec):
 def finalize(results, cov):
     h = cov["outcome_histogram"]
     errs = []
-    for k in ("crossing-den>1e9", "crossing-den<=1e9", "single"):
+    for k in ("crossing-den>1e9", "crossing-den<=1e9", "single", "stored<=1e9", "stored>1e9"):
         if not h.get(k):
             errs.append("vacuity: bucket %s empty" % k)
     return errs
